@@ -232,6 +232,15 @@ class ThreadRun:
                 break
 
 
+def _wait_for(pred: Any, limit: float) -> bool:
+    t0 = time.monotonic()
+    while time.monotonic() - t0 < limit:
+        if pred():
+            return True
+        time.sleep(0.001)
+    return False
+
+
 def script_reader_passes_queued_reader() -> tuple[dict[str, Any] | None,
                                                   str | None, int]:
     """Scripted: a writer sits inside, reader 1 queues behind it, then
@@ -273,13 +282,10 @@ def script_reader_passes_queued_reader() -> tuple[dict[str, Any] | None,
     if not w_in.wait(10.0):
         return None, 'script-writer-never-entered', 0
     ts[1].start()
-    t0 = time.monotonic()
-    while time.monotonic() - t0 < 2.0:     # let reader 1 park on the lock
-        if run.state[1] == 'waiting' and \
-                getattr(lock, '_counter', 1) >= 1:
-            break
-        time.sleep(0.001)
-    time.sleep(0.05)
+    # let reader 1 park on the lock
+    _wait_for(lambda: run.state[1] == 'waiting', 2.0)
+    _wait_for(lambda: getattr(lock, '_counter', 0) >= 1, 0.05)
+    time.sleep(0.02)
     ts[2].start()
     r2_in.wait(0.5)          # fixed lock: reader 2 is (rightly) parked
     w_go.set()
@@ -288,3 +294,80 @@ def script_reader_passes_queued_reader() -> tuple[dict[str, Any] | None,
     if any(t.is_alive() for t in ts):
         return run.viol, 'script-join-timeout', run.checked
     return run.viol, None, run.checked
+
+
+def script_writer_joins_passing_reader(attempts: int = 12) \
+        -> tuple[dict[str, Any] | None, str | None, int]:
+    """Scripted, other face of the same defect: writer 0 sits inside, writer
+    1 and then reader 2 park behind it; thread 0 leaves and at once asks for
+    a read lock.  Which parked thread the OS wakes first is not ours to
+    choose, hence a few attempts.  Timeouts only decide 'not reproduced'."""
+    checked = 0
+    for _ in range(attempts):
+        run = ThreadRun([['W1', 'R1'], ['W1'], ['R1']], 1, 1)
+        lock = run.locks[0]
+        w_in, w_go = threading.Event(), threading.Event()
+        w1_in, hold = threading.Event(), threading.Event()
+
+        def req(tid: int, kind: str) -> None:
+            with run.wl:
+                run.kind[tid] = kind
+                run.state[tid] = 'waiting'
+                run.reqno[tid] = len(run.log)
+                run.log.append((0, 'req', tid, kind))
+
+        async def t0() -> None:
+            async with lock.write_lock():
+                run.enter(0, 0, 'W')
+                w_in.set()
+                w_go.wait(10.0)
+                run.exit(0, 0, 'W')
+            req(0, 'R')
+            async with lock.read_lock():
+                run.enter(0, 0, 'R')
+                hold.wait(0.2)
+                run.exit(0, 0, 'R')
+
+        async def t1() -> None:
+            req(1, 'W')
+            async with lock.write_lock():
+                run.enter(0, 1, 'W')
+                w1_in.set()
+                run.exit(0, 1, 'W')
+
+        async def t2() -> None:
+            req(2, 'R')
+            async with lock.read_lock():
+                run.enter(0, 2, 'R')
+                run.exit(0, 2, 'R')
+
+        def main(coro: Any) -> None:
+            loop = asyncio.new_event_loop()
+            try:
+                loop.run_until_complete(coro)
+            finally:
+                loop.close()
+
+        ts = [threading.Thread(target=main, args=(c,), daemon=True)
+              for c in (t0(), t1(), t2())]
+        ts[0].start()
+        if not w_in.wait(10.0):
+            return None, 'script-writer-never-entered', checked
+        ts[1].start()
+        _wait_for(lambda: run.state[1] == 'waiting', 2.0)
+        time.sleep(0.02)
+        ts[2].start()
+        _wait_for(lambda: run.state[2] == 'waiting', 2.0)
+        _wait_for(lambda: getattr(lock, '_counter', 0) >= 1, 0.05)
+        time.sleep(0.02)
+        w_go.set()
+        w1_in.wait(0.1)
+        hold.set()
+        for t in ts:
+            t.join(10.0)
+        checked += run.checked
+        if any(t.is_alive() for t in ts):
+            return run.viol, 'script-join-timeout', checked
+        if run.viol is not None:
+            return run.viol, None, checked
+    return None, None, checked
